@@ -333,6 +333,8 @@ func c10Check(c c10Case) vfResult {
 	r.Hash = vfHash(doc, vfHashU(uint64(c.Limit)), c.Prime)
 	if m.String() != wantMime || m.Extension() != wantExt {
 		r.Err = fmt.Errorf("limit %d: want %s (%s), got %s; doc %s", c.Limit, wantMime, wantExt, vfChainStr(m), vfQ(doc))
+	} else if err := vfRoutes(doc, c.Limit, m); err != nil {
+		r.Err = fmt.Errorf("limit %d: %v; doc %s", c.Limit, err, vfQ(doc))
 	}
 	return r
 }
